@@ -580,6 +580,17 @@ void gen(uint64_t seed, int tier, sim::Plan &p) {
             }
         }
     }
+    if (r.chance(tier ? 0.03 : 0.015)) {
+        // scale run: one thread logs several hundred short lines (the pending list has to grow repeatedly)
+        int t = (int)r.range(1, nl);
+        int n = (int)r.range(300, 600);
+        for (int i = 0; i < n; i++) {
+            sim::Op op; op.thr = t; op.kind = OP_LOG; op.a = r.range(0, 5); op.b = r.range(0, 4); op.c = r.range(0, 12); op.d = (int64_t)(r.next() >> 2);
+            p.ops.push_back(op);
+            total++;
+        }
+        p.cfg["alloc_yield"] = 0;
+    }
     if (r.chance(0.5)) {
         int n = (int)r.range(1, 6);
         for (int i = 0; i < n; i++) {
